@@ -72,6 +72,19 @@ func execBurst(plan *Plan, refs *refTable) *runResult {
 			}
 		}(i, bt)
 	}
+	// allowance: 20 s plus 1 s per 20 000 solo yields of the plan (a large input takes longer)
+	hang := burstHang
+	if refs != nil {
+		var steps int64
+		for i := range plan.Tasks {
+			for _, op := range plan.Tasks[i].Ops {
+				if n, ok := refs.steps(op.Key); ok {
+					steps += n
+				}
+			}
+		}
+		hang += time.Duration(steps/20000) * time.Second
+	}
 	close(start)
 	// a burst takes milliseconds; one that does not finish is a hang of the library under
 	// real threads (deadlock / livelock): dump all stacks for the driver and give up
@@ -79,10 +92,10 @@ func execBurst(plan *Plan, refs *refTable) *runResult {
 	go func() { wg.Wait(); close(joined) }()
 	select {
 	case <-joined:
-	case <-time.After(burstHang):
+	case <-time.After(hang):
 		buf := make([]byte, 1<<20)
 		n := runtime.Stack(buf, true)
-		fmt.Fprintf(os.Stderr, "BURST-HANG after %v\n%s\n", burstHang, buf[:n])
+		fmt.Fprintf(os.Stderr, "BURST-HANG after %v\n%s\n", hang, buf[:n])
 		os.Exit(67)
 	}
 	// oracles after the join
